@@ -47,7 +47,7 @@ def handle (req : Sexp) : Sexp :=
   let r : Option Sexp := match req with
     | .list [.atom "root", .list ks] => do
       let ks ← ks.mapM getKind
-      some (ok [putRoot (pickRoot ks), putRoot (pickRootFixed ks)])
+      some (ok [putRoot (pickRoot ks), putRoot (pickRootBefore ks)])
     | .list [.atom "pages", h, right, .list bs] => do
       let bs ← bs.mapM getBlock
       let h ← h.asNat?
